@@ -315,3 +315,64 @@ def go_right_file_run(crate, R=3):
 
     _check_paths(ex, res, outs, per_path)
     return P.finish(ex, res, ["run reaches the end of the leaves region", "run ends at another key", "read or decode error"])
+
+
+def node_fits_block(crate):
+    """C09: the fan-out limit of inner nodes (HeaderStage::max_nonleaf_node_capacity) never lets a serialized node exceed
+    BLOCK_SIZE: Node::serialized_size_with_keys(key_size, capacity - 1) <= BLOCK_SIZE for every key size — the reader
+    fetches exactly one block per node, a longer node would be cut (out-of-range panic or garbage offsets on lookups)."""
+    res = P.ObResult("node_fits_block")
+    cap_fn = crate.method("HeaderStage", "max_nonleaf_node_capacity")
+    size_fn = crate.method("Node", "serialized_size_with_keys")
+    res.functions = ["HeaderStage::max_nonleaf_node_capacity", "Node::serialized_size_with_keys"]
+    res.bounds = "key size 1..=2048 bytes (symbolic), NodeMeta size from bincode taken as its actual value 8 (one u64 field), BLOCK_SIZE from the source"
+    block = None
+    for k, v in crate.consts.items():
+        if k.split("::")[-1] == "BLOCK_SIZE" and v[0] == "lit":
+            m = re.match(r"^(?:const )?(\d+)", str(v[2]))
+            if m:
+                block = int(m.group(1).replace("_", ""))
+    if block is None:
+        raise Unsupported("BLOCK_SIZE constant not found")
+    ks = z3.BitVec("key_size", 64)
+
+    def call_hook(ex_, st_, cname, args, dty):
+        if cname == "NodeMeta::serialized_size_default":
+            r = Obj(dty); r.discr = Sym(BV64(0), "isize"); r.fields[("Ok", 0)] = Sym(BV64(8), "u64")
+            return [(r, None)]
+        return None
+    ex = P.mk_executor(crate, cap=2, loop_bound=4, inline=[])
+    ex.call_hook = call_hook
+    st = State()
+    st.pc.append(z3.And(z3.UGE(ks, BV64(1)), z3.ULE(ks, BV64(2048))))
+    ex.push_frame(st, cap_fn, [Sym(ks, "usize")], None, None)
+    outs = ex.run(st)
+    res.paths = len(outs)
+    for o in outs:
+        if o.status in ("infeasible", "unwind"):
+            continue
+        if o.status != "returned":
+            if not P.prove(ex, res, o, z3.BoolVal(False), "no panic in max_nonleaf_node_capacity (%s)" % o.note):
+                return P.finish(ex, res, [])
+            continue
+        cap = o.result.t
+        o.status = "running"
+        if not P.prove(ex, res, o, z3.UGE(cap, BV64(2)), "an inner node can hold at least two children"):
+            return P.finish(ex, res, [])
+        ex.push_frame(o, size_fn, [Sym(ks, "usize"), Sym(cap - 1, "usize")], None, None)
+        for o2 in ex.run(o):
+            if o2.status in ("infeasible", "unwind"):
+                continue
+            if o2.status != "returned":
+                if not P.prove(ex, res, o2, z3.BoolVal(False), "no panic in serialized_size_with_keys (%s)" % o2.note):
+                    return P.finish(ex, res, [])
+                continue
+            r = o2.result
+            ok = ex.get_discr(o2, r).t == BV64(0)
+            sz = ex._get_field(o2, r, "Ok", 0, "u64").t
+            if not P.prove(ex, res, o2, z3.And(ok, z3.ULE(sz, BV64(block))), "a node with the maximal number of children fits into one block"):
+                return P.finish(ex, res, [])
+            # and the limit is tight: one more child would not fit (the capacity is not needlessly small)
+            P.cover(ex, res, o2, z3.UGT(sz + ks + BV64(8), BV64(block)), "capacity is maximal for some key size")
+            P.cover(ex, res, o2, sz == BV64(block), "a full node fills the block exactly for some key size")
+    return P.finish(ex, res, ["capacity is maximal for some key size"])
